@@ -1,3 +1,59 @@
-import Lomond.Model.Core
+/-
+  C02 — the event stream does not depend on how TCP segments the byte stream.
+  Property theorems only (helper lemmas: Proofs/Core.lean).
+
+  The model's `feedLoop` is written exactly like `Parser.feed`'s loop: it takes a *bite*
+  `data[pos:pos+remaining]` of the current read, validates the slice, extends the buffer and
+  resumes the grammar when the awaited count is complete; after every parser output the whole
+  lazy pipeline (stream, message, websocket, session bookkeeping, the application's reaction,
+  `_regular`) runs before the next byte is looked at.  The theorems say that this chunk-oriented
+  algorithm computes a function of the concatenated bytes only.
+-/
+import Lomond.Proofs.Core
+
 namespace Lomond.C02
+open Lomond Lomond.Core
+
+/-- Frames phase, any system state `s` (any configuration, application, parser position —
+    mid-header, mid-extended-length, mid-payload, mid-UTF-8-character —, any negotiated
+    extension): feeding `a ++ b` in one read is the same as feeding `a`, then `b` — same final
+    state, hence same events, same application reactions and same bytes written (they are all
+    part of the state's trace), same error at the same point, and the same decision to stop. -/
+theorem feedLoop_two_reads (a b : Bytes) (s : Sys) :
+    feedLoop (a ++ b) s = contLoop (feedLoop a s) b :=
+  feedLoop_append a b s
+
+/-- feeding chunks one after the other, stopping at the first error / `break` -/
+def feedChunks : List Bytes → Sys → Res Bool
+  | [], s => .ok true s
+  | c :: cs, s => contLoopK (feedLoop c s) cs
+where
+  contLoopK (r : Res Bool) (cs : List Bytes) : Res Bool :=
+    match r with
+    | .ok true s' => feedChunks cs s'
+    | .ok false s' => .ok false s'
+    | .err x s' => .err x s'
+
+theorem feedChunks_eq_flatten (cs : List Bytes) (s : Sys) :
+    feedChunks cs s = feedLoop cs.flatten s := by
+  induction cs generalizing s with
+  | nil => simp [feedChunks, feedLoop_nil]
+  | cons c cs ih =>
+    simp only [feedChunks, List.flatten_cons, feedLoop_append]
+    cases h : feedLoop c s with
+    | ok go s' => cases go <;> simp [feedChunks.contLoopK, contLoop, ih]
+    | err x s' => simp [feedChunks.contLoopK, contLoop]
+
+/-- **Segmentation independence (frames phase).**  Any two ways of cutting the same byte stream
+    into reads — 2^(n-1) cut sets for n bytes, one byte at a time included — drive the system
+    from any state to the same result. -/
+theorem segmentation_independent (cs₁ cs₂ : List Bytes) (s : Sys)
+    (h : cs₁.flatten = cs₂.flatten) : feedChunks cs₁ s = feedChunks cs₂ s := by
+  rw [feedChunks_eq_flatten, feedChunks_eq_flatten, h]
+
+/-- one byte per read is one of those segmentations -/
+theorem bytewise (data : Bytes) (s : Sys) :
+    feedChunks (data.map (fun b => [b])) s = feedLoop data s := by
+  rw [feedChunks_eq_flatten]; congr 1; induction data <;> simp_all
+
 end Lomond.C02
